@@ -1,6 +1,6 @@
 --------------------------- MODULE MC_TableObject ---------------------------
 (* Every sequence of Depth operations on one Table object over a small menu (two headers, three rows, rows of the
-   wrong length, set_row at valid / invalid positions, set_rows with and without a rejected row, render on a
+   wrong length, add_rows, set_row at valid / invalid positions, an alignment set on the table's style, set_rows with and without a rejected row, render on a
    narrow and a wide terminal).  The sequences are emitted and replayed on a real Table; what each render shows
    is judged by TableLayoutTrace against the table state this model has at that moment.                       *)
 EXTENDS TableObject, Json, TLC
@@ -32,8 +32,12 @@ Next ==
   /\ Len(hist) < Depth
   /\ \/ \E h \in {H1, H2, HB} : LET r == FSetHeader(tbl, h) IN
           tbl' = r.t /\ hist' = Append(hist, [op |-> "set_header", row |-> h, rws |-> <<>>, idx |-> 0, w |-> "", err |-> r.err])
-     \/ \E x \in {R1, R3, RB} : LET r == FAddRow(tbl, x) IN
+     \/ \E x \in {R1, RB} : LET r == FAddRow(tbl, x) IN
           tbl' = r.t /\ hist' = Append(hist, [op |-> "add_row", row |-> x, rws |-> <<>>, idx |-> 0, w |-> "", err |-> r.err])
+     \/ LET r == FAddRows(tbl, <<R3, R1>>) IN
+          tbl' = r.t /\ hist' = Append(hist, [op |-> "add_rows", row |-> <<>>, rws |-> <<R3, R1>>, idx |-> 0, w |-> "", err |-> r.err])
+     \/ LET r == FAlign(tbl, 0, 1) IN
+          tbl' = r.t /\ hist' = Append(hist, [op |-> "align", row |-> <<>>, rws |-> <<>>, idx |-> 0, w |-> "", err |-> r.err])
      \/ \E ix \in {0, 2} : LET r == FSetRow(tbl, ix, R2) IN
           tbl' = r.t /\ hist' = Append(hist, [op |-> "set_row", row |-> R2, rws |-> <<>>, idx |-> ix, w |-> "", err |-> r.err])
      \/ \E rs \in {<<R2, R1>>, <<R1, RB, R3>>} : LET r == FSetRows(tbl, rs) IN
